@@ -394,6 +394,32 @@ func (c *ctx) prologue() {
 			return true
 		})
 		c.s.Check(good, "G12", "exprPrinter.printExpr|expression recorded before its variable name is returned", c.pos(fd), "", "printExpr can return a `_L_C` name without recording the expression: the variable would be undefined or the expression never evaluated")
+		// every other exit prints in place; allowed only for the literal nil and for position-less (synthetic) expressions
+		ast.Inspect(fd.Body, func(n ast.Node) bool {
+			ret, ok := n.(*ast.ReturnStmt)
+			if !ok || len(ret.Results) != 1 {
+				return true
+			}
+			if call, ok := ret.Results[0].(*ast.CallExpr); ok && fullName(astx.Callee(info, call)) == "fmt.Sprintf" {
+				return true
+			}
+			conds := fc.par.Known(ret, fd)
+			why := ""
+			for _, cd := range conds {
+				// ident.Name == "nil"
+				if b, ok := astx.Unparen(cd.E).(*ast.BinaryExpr); ok && b.Op == token.EQL && cd.Pos {
+					if sv, ok := constStr(fc, b.Y); ok && sv == "nil" && strings.HasSuffix(astx.Short(b.X), ".Name") {
+						why = "the literal nil"
+					}
+				}
+				// !e.Pos().IsValid()
+				if call, ok := astx.Unparen(cd.E).(*ast.CallExpr); ok && !cd.Pos && strings.HasSuffix(astx.Short(call.Fun), ".Pos().IsValid") {
+					why = "position-less synthetic expression"
+				}
+			}
+			c.s.Check(why != "", "G12", "exprPrinter.printExpr|in-place exit: "+astx.Short(ret.Results[0]), c.pos(ret), "prints in place only "+why, "printExpr prints a user expression in place (not hoisted) on a path other than `nil` / position-less synthetic expressions: it is evaluated late, possibly repeatedly, on a worker goroutine, and can be captured by generated identifiers")
+			return true
+		})
 	} else {
 		c.s.Unk("G12", "exprPrinter.printExpr", "", "not found")
 	}
@@ -488,7 +514,22 @@ func (c *ctx) inversion() {
 				if call, ok := n.(*ast.CallExpr); ok && astx.IdentObj(info, call.Fun) == self && len(call.Args) == 1 {
 					if u, ok := call.Args[0].(*ast.UnaryExpr); ok && u.Op == token.AND {
 						if se, ok := u.X.(*ast.SelectorExpr); ok {
-							recursed[se.Sel.Name] = true
+							// the call must execute on every path through the case: not under an if (except the replacement's early return before it), not in the right operand of && / ||
+							shortCircuited := false
+							for x := ast.Node(call); x != nil && x != ast.Node(cc); x = fc.par[x] {
+								if b, ok := fc.par[x].(*ast.BinaryExpr); ok && (b.Op == token.LOR || b.Op == token.LAND) && b.Y == x {
+									shortCircuited = true
+								}
+							}
+							conds := 0
+							for _, cd := range fc.par.Known(call, cc) {
+								if is, ok := cd.At.(*ast.IfStmt); ok && fc.par.Within(call, is) {
+									conds++
+								}
+							}
+							if !shortCircuited && conds == 0 {
+								recursed[se.Sel.Name] = true
+							}
 						}
 					}
 				}
